@@ -861,7 +861,8 @@ orc_x86_compile (OrcCompiler *compiler)
   t = compiler->target->target_data;
   align_var = orc_x86_get_max_alignment_var (t, compiler);
   if (align_var < 0) {
-    orc_x86_assemble_copy (compiler);
+    /* no array variable: the compiler error is already set and the program
+     * runs by emulation (it may not even have an instruction to look at) */
     return;
   }
 
